@@ -1,2 +1,33 @@
-(** C19 — statements only; see Proofs/. *)
-From RRSS Require Import Base.Outcome.
+(** C19 — Lint reports are complete, ordered by line, and linting never fails.
+    Statements only; proofs in Proofs/LintLaws.v. *)
+From Coq Require Import List ZArith NArith Bool Sorting.Permutation Sorting.Sorted.
+From RRSS Require Import Base.Outcome Base.Chars Front.Ast Lint.Lint Proofs.LintLaws.
+Import ListNotations.
+
+(** the diagnostics returned are ordered by line *)
+Theorem C19_lint_sorted :
+  forall p ds, lint p = Ok ds -> StronglySorted line_le ds.
+Proof. exact lint_sorted. Qed.
+
+(** they are exactly the diagnostics of both passes (nothing lost or invented), and within one
+    line they keep pass order: first the constant-assignment pass, then the repeated-identifier pass,
+    each in traversal order *)
+Theorem C19_lint_complete_stable :
+  forall p ds a, lint p = Ok ds -> boring_program p = Ok a ->
+    Permutation (a ++ missed_program p) ds /\
+    forall n, filter (on_line n) ds = filter (on_line n) a ++ filter (on_line n) (missed_program p).
+Proof. exact lint_complete_stable. Qed.
+
+(** the repeated-identifier pass reports mention i exactly when it is a variable mention (not the
+    name of a called function) spelling the same name as mention i-1 in traversal order, at the
+    line of that mention ([missed_spec] / [report_at] / [missed_diag] say precisely this) *)
+Theorem C19_missed_run_spec :
+  forall ms last, missed_run ms last = missed_spec last ms.
+Proof. exact missed_run_spec. Qed.
+
+Theorem C19_sort_stable :
+  forall n l, filter (on_line n) (sort_diags l) = filter (on_line n) l.
+Proof. exact sort_diags_stable. Qed.
+
+Print Assumptions C19_lint_sorted.
+Print Assumptions C19_lint_complete_stable.
